@@ -682,4 +682,53 @@ theorem cos_SO3Log_norm (eps : ℝ) (q : Quat ℝ) (h0 : 0 ≤ eps) (hq : q.norm
   rw [div_pow, one_pow, Real.sq_sqrt hpos.le, h1]
   field_simp
 
+theorem normSq_eq_zero (v : Vec3 ℝ) (h : v.normSq = 0) : v = Vec3.zero := by
+  unfold Vec3.normSq at h
+  have hx : v.x = 0 := by nlinarith [mul_self_nonneg v.x, mul_self_nonneg v.y, mul_self_nonneg v.z]
+  have hy : v.y = 0 := by nlinarith [mul_self_nonneg v.x, mul_self_nonneg v.y, mul_self_nonneg v.z]
+  have hz : v.z = 0 := by nlinarith [mul_self_nonneg v.x, mul_self_nonneg v.y, mul_self_nonneg v.z]
+  ext <;> simp [Vec3.zero, hx, hy, hz]
+
+/-! ## small list helpers used by the property theorems -/
+
+theorem zipWith_self_zero {β : Type} (f : β → β → ℝ) (g : β → β) (l : List β) (h : ∀ x ∈ l, f x (g x) = 0) :
+    ∀ e ∈ List.zipWith f l (l.map g), e = 0 := by
+  induction l with
+  | nil => simp
+  | cons x xs ih =>
+    intro e he
+    simp only [List.map_cons, List.zipWith_cons_cons, List.mem_cons] at he
+    rcases he with rfl | he
+    · exact h x (by simp)
+    · exact ih (fun y hy => h y (by simp [hy])) e he
+
+theorem zipWith_map_right_congr {β γ : Type} (f : β → γ → ℝ) (g1 g2 g' : γ → γ) (l : List β) (m : List γ)
+    (h : ∀ r e, f r (g2 (g1 e)) = f r (g' e)) :
+    List.zipWith f l ((m.map g1).map g2) = List.zipWith f l (m.map g') := by
+  rw [List.map_map, List.zipWith_map_right, List.zipWith_map_right]
+  congr 1
+  funext r e
+  exact h r e
+
+theorem map_alignPose_one (ep : List (SE3 ℝ)) : ep.map (alignPose Sim3one) = ep := by
+  conv_rhs => rw [← List.map_id ep]
+  exact List.map_congr_left (fun e _ => alignPose_one e)
+
+theorem pick_map {β γ : Type} (f : β → γ) (xs : List β) (ids : List Nat) :
+    pick (xs.map f) ids = (pick xs ids).map f := by
+  unfold pick
+  induction ids with
+  | nil => rfl
+  | cons i ids ih =>
+    simp only [List.filterMap_cons, List.getElem?_map]
+    cases xs[i]? with
+    | none => simpa using ih
+    | some x => simp only [Option.map_some, List.map_cons]; rw [← ih]; simp [List.getElem?_map]
+
+theorem mem_pick {β : Type} (xs : List β) (ids : List Nat) (x : β) (h : x ∈ pick xs ids) : x ∈ xs := by
+  unfold pick at h
+  obtain ⟨i, _, hi⟩ := List.mem_filterMap.mp h
+  exact List.mem_of_getElem? hi
+
+
 end PP.Traj
